@@ -15,12 +15,13 @@ func init() {
 		run: runC10,
 		explanation: "Decided (structural, for every query tree): " +
 			"C10.exhaustive — the formatter's switch over the expression oneof has a case for every wrapper type, and each case formats that wrapper's own member; " +
+			"C10.exhaustive / C10.parens on a formatter that has no function per operator (one recursive function that is told the enclosing operator, a classifier followed by a switch over an internal kind, one requiresParens(parent, operand), operator texts in a table): the whole formatter is symbolically executed from QueryToString on a family of model query trees (all of depth <= 3 with AND/OR of 1 or 2 operands, those of depth 4 with a shallow sibling at the root, 3 or 4 operands at the root; oneof tests, getters, operand lists, loop counters and constant package-level tables are concrete for a model tree, comparison payloads opaque), the structural characters ( ) ^ & | it writes are parsed by the operand grammar below and compared with the tree modulo flattening of nested chains of one operator and unwrapping of single-operand AND/OR; a mismatch is reported for the (operator, operand kind) pair at the root of a smallest failing tree; " +
 			"C10.parens — the parenthesisation table required by the parser (operands of '&', '|' and '^' are parsed by the simple-expression function, which yields AND/OR only through a parenthesised group — re-checked on the parser on every run) is T[NOT] ⊇ {AND, OR}, T[AND] ⊇ {OR}, T[OR] ⊇ {AND}; each operator formatter is symbolically executed once per assumed operand kind (getter/type tests on the operand resolved by the assumption, all other branches explored both ways; helpers of the formatter are executed in place with their parameters bound to the call's arguments — a flag to its value, a predicate parameter to the function passed, whose verdict is evaluated under the same assumption): on every path each recursive formatting call for a kind in the table is immediately preceded by a write containing '(' and followed by one containing ')', and for other kinds writes are balanced; " +
 			"C10.quote — the formatter doubles quotes with ReplaceAll(s, `\"`, `\"\"`) and wraps in `\"%s\"`, the parser's decoder undoes it with the swapped constants; C10.lexinput — the lexer scans exactly the string passed to ParseQuery (no rewriting of the raw text, which would alter quoted values); C10.unquote — the decoder removes exactly one delimiter at each end (only s[1:], s[:len-1], TrimPrefix/TrimSuffix of one quote) before undoing the doubling; comparison and placeholder formats are `%s = %s` / `%s = $%d` with the value passed through the quoting function; the group-by list is joined by ',' after ';' (the text a formatting function produces is followed through returning and builder-writing helpers alike); " +
 			"C10.fieldtoken — the lexer state that scans identifiers emits the one constant token kind the parser requires in front of a comparison on every path (never a kind chosen from the scanned word), so every column name the formatter writes comes back as a field; " +
 			"C10.fieldverbatim — the column stored in a comparison node and every element of the group-by list is the field token's text itself (followed through variables, parameters and parser helpers; no call, re-slice or concatenation applied to it). " +
 			"NOT decided: the round-trip equality itself and the fixpoint of format∘parse (string values; need the parser's language, see C09).",
-		assumptions: []string{"the generated getters return the oneof member or nil", "go/ssa CFG"},
+		assumptions: []string{"the generated getters return the oneof member or nil", "go/ssa CFG", "tree model of the formatter: the lexer's structural characters are ( ) ^ & |, and a chain uses one operator (mixing & and | without a group is rejected)"},
 	})
 }
 
@@ -36,12 +37,17 @@ func runC10(c *Ctx) {
 		return
 	}
 	wrappers := c.w.implementers(pkgProto, iface)
-	// the recursive formatter: the function QueryToString calls with q.Expr
+	// the recursive formatter: the function QueryToString calls with q.Expr (and whatever else it needs: the builder,
+	// the kind of the enclosing operator, …)
 	var exprFmt *ssa.Function
 	allInstrs(c.a.QueryToString, func(i ssa.Instruction) {
 		if call, ok := i.(*ssa.Call); ok {
-			if f := calleeFunc(&call.Call); f != nil && c.w.pkgPathOf(f) == pkgParser && len(call.Call.Args) == 2 && typeIs(call.Call.Args[1].Type(), pkgProto, "Query_Expression") {
-				exprFmt = f
+			if f := calleeFunc(&call.Call); f != nil && c.w.pkgPathOf(f) == pkgParser {
+				for _, a := range call.Call.Args {
+					if typeIs(a.Type(), pkgProto, "Query_Expression") {
+						exprFmt = f
+					}
+				}
 			}
 		}
 	})
@@ -52,6 +58,13 @@ func runC10(c *Ctx) {
 	// ---- exhaustive + kind -> formatter map
 	kindFmt := map[string]*ssa.Function{}
 	seen := map[*types.Named]bool{}
+	type wrapperCase struct {
+		w      *types.Named
+		at     ssa.Instruction
+		callee *ssa.Function
+		okArg  bool
+	}
+	var cases []wrapperCase
 	allInstrs(exprFmt, func(i ssa.Instruction) {
 		ta, ok := i.(*ssa.TypeAssert)
 		if !ok || !ta.CommaOk {
@@ -67,9 +80,7 @@ func runC10(c *Ctx) {
 		if !isW {
 			return
 		}
-		seen[w] = true
 		val, okv := extractOf(ta, 0), extractOf(ta, 1)
-		key := fmt.Sprintf("%s: case %s", safeFname(exprFmt), w.Obj().Name())
 		var callee *ssa.Function
 		okArg := false
 		allInstrs(exprFmt, func(j ssa.Instruction) {
@@ -88,21 +99,54 @@ func runC10(c *Ctx) {
 				}
 			}
 		})
-		if callee == nil || !okArg {
-			c.r.bad("C10.exhaustive", key, "this case of the formatter's switch does not format the wrapper's own member: expressions of this kind are dropped from the text", []string{c.w.ipos(i)})
-			return
-		}
-		member := namedOf(w.Underlying().(*types.Struct).Field(0).Type())
-		kind := strings.TrimPrefix(member.Obj().Name(), "Query_Expression_")
-		kindFmt[kind] = callee
-		c.r.ok("C10.exhaustive", key, "formatted by "+safeFname(callee), c.w.ipos(i))
+		cases = append(cases, wrapperCase{w, i, callee, okArg})
 	})
-	for _, w := range wrappers {
-		if !seen[w] {
-			c.r.bad("C10.exhaustive", safeFname(exprFmt)+": case "+w.Obj().Name(), "the formatter's switch has no case for this wrapper: such expressions are silently omitted from the text", []string{c.w.pos(exprFmt.Pos())})
+	memberKind := func(w *types.Named) string {
+		member := namedOf(w.Underlying().(*types.Struct).Field(0).Type())
+		return strings.TrimPrefix(member.Obj().Name(), "Query_Expression_")
+	}
+	// Two organisations of the formatter are decided. (1) One function per operator, reached from the cases of a type
+	// switch over the oneof wrappers: each operator formatter is executed per assumed operand kind (below). (2) Anything
+	// else — one recursive function that is told the enclosing operator, a classifier followed by a switch over an
+	// internal kind, one requiresParens(parent, operand): no case of the switch leads to a formatter of Not/And/Or of its
+	// own, and the whole formatter is executed on a family of model query trees instead (rules_ag25.go).
+	perOperator := false
+	for _, wc := range cases {
+		if k := memberKind(wc.w); k != "Equal" && wc.callee != nil && wc.okArg && wc.callee != exprFmt {
+			// a formatter of this operator: it is handed the operator's own message (not just its operand list,
+			// which a generic operand writer shared by several operators takes as well)
+			member := namedOf(wc.w.Underlying().(*types.Struct).Field(0).Type())
+			for _, p := range wc.callee.Params {
+				if namedOf(p.Type()) == member {
+					perOperator = true
+				}
+			}
 		}
 	}
-	c.r.min["C10.exhaustive"] = len(wrappers)
+	if perOperator {
+		for _, wc := range cases {
+			seen[wc.w] = true
+			key := fmt.Sprintf("%s: case %s", safeFname(exprFmt), wc.w.Obj().Name())
+			if wc.callee == nil || !wc.okArg {
+				c.r.bad("C10.exhaustive", key, "this case of the formatter's switch does not format the wrapper's own member: expressions of this kind are dropped from the text", []string{c.w.ipos(wc.at)})
+				continue
+			}
+			kindFmt[memberKind(wc.w)] = wc.callee
+			c.r.ok("C10.exhaustive", key, "formatted by "+safeFname(wc.callee), c.w.ipos(wc.at))
+		}
+		for _, w := range wrappers {
+			if !seen[w] {
+				c.r.bad("C10.exhaustive", safeFname(exprFmt)+": case "+w.Obj().Name(), "the formatter's switch has no case for this wrapper: such expressions are silently omitted from the text", []string{c.w.pos(exprFmt.Pos())})
+			}
+		}
+		c.r.min["C10.exhaustive"] = len(wrappers)
+	} else {
+		for _, wc := range cases {
+			if wc.callee != nil && wc.okArg && wc.callee != exprFmt && memberKind(wc.w) == "Equal" {
+				kindFmt["Equal"] = wc.callee
+			}
+		}
+	}
 
 	// ---- parser side of the table. The grammar functions are structural anchors (rules_ag5.go: told apart by the oneof
 	// wrappers they build, today's names being only the first guess), so renaming them or the parser type keeps the check.
@@ -144,8 +188,16 @@ func runC10(c *Ctx) {
 	}
 
 	// ---- parens
+	if !perOperator {
+		if eq := c10Model(c, exprFmt, wrappers); eq != nil && kindFmt["Equal"] == nil {
+			kindFmt["Equal"] = eq
+		}
+	}
 	table := map[string][]string{"Not": {"And", "Or"}, "And": {"Or"}, "Or": {"And"}}
 	for _, P := range []string{"Not", "And", "Or"} {
+		if !perOperator {
+			break
+		}
 		f := kindFmt[P]
 		if f == nil {
 			c.r.undecided("C10.parens", "formatter of "+P, "no formatter function found for this kind")
@@ -853,6 +905,21 @@ func outputSeqs(c *Ctx, fn *ssa.Function, skip func(*ssa.Function) bool, withRes
 				}
 			}
 		case *ssa.Call:
+			// the generated getter of a message field renders like the field it yields (rules_ag31.go: the getter's body
+			// is inspected; for a nil message it yields the zero value, which the parser-made messages never are)
+			if _, f := pbGetterField(c, x); f != nil {
+				switch verb {
+				case "", "s", "v":
+					if b, ok := f.Type().Underlying().(*types.Basic); ok && b.Info()&types.IsInteger != 0 {
+						return "<n:" + f.Name() + ">"
+					}
+					return "<" + f.Name() + ">"
+				case "d":
+					return "<n:" + f.Name() + ">"
+				default:
+					return "<%" + verb + ":" + f.Name() + ">"
+				}
+			}
 			name := calleeName(&x.Call)
 			switch name {
 			case "strconv.Itoa", "strconv.FormatInt", "strconv.FormatUint":
@@ -875,7 +942,11 @@ func outputSeqs(c *Ctx, fn *ssa.Function, skip func(*ssa.Function) bool, withRes
 				}
 				return wrap("<replace:" + inner + ">")
 			case "strings.Join":
-				if f := path(x.Call.Args[0]).lastField(); f != nil {
+				f := path(x.Call.Args[0]).lastField()
+				if gc, isCall := x.Call.Args[0].(*ssa.Call); isCall && f == nil {
+					_, f = pbGetterField(c, gc) // strings.Join(q.GetGroupBy(), ", ")
+				}
+				if f != nil {
 					if sep, ok := constString(x.Call.Args[1]); ok {
 						return wrap("<join" + strings.TrimSpace(sep) + ":" + f.Name() + ">")
 					}
@@ -907,7 +978,8 @@ func outputSeqs(c *Ctx, fn *ssa.Function, skip func(*ssa.Function) bool, withRes
 		return "<?>"
 	}
 	// isOut: v is the builder whose contents are the function's output — the root function's builder parameter or
-	// local builder, possibly handed down through helper parameters. A builder local to a helper is not.
+	// local builder (also as a field of a local struct), possibly handed down through helper parameters. A builder
+	// local to a helper is not.
 	var isOut func(v ssa.Value, fr *outFrame) bool
 	isOut = func(v ssa.Value, fr *outFrame) bool {
 		for n := 0; n < 8; n++ {
@@ -946,6 +1018,18 @@ func outputSeqs(c *Ctx, fn *ssa.Function, skip func(*ssa.Function) bool, withRes
 				}
 			}
 			return true
+		case *ssa.FieldAddr:
+			// the root function's builder kept in a local struct (var w exprWriter; …; return w.b.String())
+			al, ok := x.X.(*ssa.Alloc)
+			if !ok || fr.parent != nil || !isTextSink(x.Type()) {
+				return false
+			}
+			for _, p := range fr.fn.Params {
+				if isTextSink(p.Type()) {
+					return false
+				}
+			}
+			return al.Parent() == fr.fn
 		}
 		return false
 	}
